@@ -31,7 +31,8 @@ import PV.Generated.Lex
     table the model was written against), `lex_render` (the lexer reads the STRING form of a
     lexically safe tree back as the printer's tokens), `roundtrip_string_partial` /
     `roundtrip_string_current` (the round trip as a statement about strings), and the two
-    lexical defects `lookup_int_cex` (`1.u`), `true_prefix_cex` (`Truex`).
+    lexical defect `lookup_int_cex` (`1.u`); `true_prefix_fixed` / `true_prefix_old_cex` (`Truex`:
+    repaired by `True\b` / `False\b`), `true_name_cex` (a variable literally named `True`).
 
   Not covered by theorems (correspondence and oracle only): `Min`/`Max`, common
   subexpressions, wildcards, `inf`/`nan`, strings; a conditional as the LAST argument / element
@@ -406,7 +407,7 @@ theorem lex_render_adj {ps : Pieces} (h : adjOk ps = true) :
 
 /-- **`lex_render`.**  For every tree that is lexically safe for the printer table `S`
 (`LexSafe S e`, decidable: names are lexed as single identifiers — they match the identifier rule,
-are no keyword and do not start with `True`/`False`; float constants print with a `repr` spelling
+are no keyword and are not `True`/`False` (nor one of these followed by `@`/`$`); float constants print with a `repr` spelling
 `D+.D+`, `D+.D+e±D+`, `D+e±D+` that `float()`/`repr()` map back to the same constant; integers
 have at most 4300 digits; n-ary nodes are non-empty, slices have two parts or more; the printed
 aggregate of an attribute look-up does not end in an integer literal), the model lexer reads the
@@ -462,7 +463,9 @@ theorem roundtrip_string_flat_current {e : Expr} {ps : Pieces}
 example : LexSafe printPrec sample = true := by decide +kernel
 example : parseStringWith lexTable parserPrec 0
     ("(a + b*c**2) / (-3) < d and not o.f(e, (p, q), w[i::n // 2], k=v[i, 0], l=[r]) " ++
-      "if x | y else ~g()[z] << 1") = .ok sample := by decide +kernel
+      "if x | y else ~g()[z] << 1") = .ok sample := by
+  -- through `Lexer.table`: if the regenerated table differs, only `lex_table_current` fails
+  rw [lex_table_current]; decide +kernel
 /-- float constants: the three `repr` spellings, and a negative one -/
 example : LexSafe printPrec
     (.bin .quot (.const (.flt "-2.5" (-5) 2))
@@ -488,20 +491,50 @@ theorem lookup_int_cex :
     LexSafe printPrec (.lookup (.const (.int 1)) "u") = false ∧
     ∃ ps, strTop printPrec (.lookup (.const (.int 1)) "u") = .ok ps ∧ render ps = "1.u" ∧
       Lexer.lexRaw (render ps).toList = .ok [("float", ['1', '.', 'u'])] ∧
-      parseStringWith lexTable parserPrec 0 (render ps) = .error (.lex .floatText) :=
-  ⟨by decide +kernel, by decide +kernel, _, rfl, by decide +kernel, by decide +kernel,
+      parseStringWith lexTable parserPrec 0 (render ps) = .error (.lex .floatText) := by
+  rw [lex_table_current]
+  exact ⟨by decide +kernel, by decide +kernel, _, rfl, by decide +kernel, by decide +kernel,
     by decide +kernel⟩
 
-/-- NEW (lexer): the `True` / `False` rules have no `\b`: a name that starts with `True` or
-`False` is split (`Truex` ↦ `True`, `x`) and the string form of the variable does not parse. -/
-theorem true_prefix_cex :
-    InFragment parserPrec printPrec (.var "Truex") = true ∧
-    LexSafe printPrec (.var "Truex") = false ∧
-    ∃ ps, strTop printPrec (.var "Truex") = .ok ps ∧ render ps = "Truex" ∧
-      Lexer.lex (render ps) = .ok [.tTrue, .ident "x"] ∧
-      parseStringWith lexTable parserPrec 0 (render ps) = .error (.parse .parse) :=
-  ⟨by decide +kernel, by decide +kernel, _, rfl, by decide +kernel, by decide +kernel,
+/-- the rule table BEFORE the repair (`RE(r"True")`, `RE(r"False")`: no `\\b`), kept to replay
+the repaired defect; it differs from `Lexer.table` in these two sources only -/
+def lexTablePre : LexTable :=
+  Lexer.table.map fun r =>
+    if r.1 = "True" then ("True", .one (.re "True"))
+    else if r.1 = "False" then ("False", .one (.re "False"))
+    else r
+
+/-- REPAIRED (`fix: True\\b / False\\b`), about the OLD table `lexTablePre`: without `\\b` a name
+that starts with `True` or `False` was split (`Truex` ↦ `True`, `x`) and the string form of the
+variable did not parse. -/
+theorem true_prefix_old_cex :
+    tableOk lexTablePre = true ∧
+    lexWith lexTablePre "Truex" = .ok [.tTrue, .ident "x"] ∧
+    parseStringWith lexTablePre parserPrec 0 "Truex" = .error (.parse .parse) :=
+  ⟨by decide +kernel, by decide +kernel, by decide +kernel⟩
+
+/-- with the current table (`True\\b`, `False\\b`) such names are lexically safe, are lexed as ONE
+identifier and round-trip on strings -/
+theorem true_prefix_fixed :
+    LexSafe printPrec (.var "Truex") = true ∧
+    LexSafe printPrec (.lookup (.var "x") "Falsey") = true ∧
+    lexWith lexTable "Truex" = .ok [.ident "Truex"] ∧
+    parseStringWith lexTable parserPrec 0 "f(True, Falsex)"
+      = .ok (.call (.var "f") [.const (.bool true), .var "Falsex"]) ∧
+    parseStringWith lexTable parserPrec 0 "x.Falsey" = .ok (.lookup (.var "x") "Falsey") := by
+  rw [lex_table_current]
+  exact ⟨by decide +kernel, by decide +kernel, by decide +kernel, by decide +kernel,
     by decide +kernel⟩
+
+/-- a variable literally NAMED `True` (or `False`) prints as the constant's spelling and is read
+back as the constant: outside `LexSafe` (as the keywords are), recorded as it behaves -/
+theorem true_name_cex :
+    InFragment parserPrec printPrec (.var "True") = true ∧
+    LexSafe printPrec (.var "True") = false ∧
+    ∃ ps, strTop printPrec (.var "True") = .ok ps ∧ render ps = "True" ∧
+      parseStringWith lexTable parserPrec 0 (render ps) = .ok (.const (.bool true)) := by
+  rw [lex_table_current]
+  exact ⟨by decide +kernel, by decide +kernel, _, rfl, by decide +kernel, by decide +kernel⟩
 
 end lexer
 
